@@ -176,6 +176,11 @@ double Integrate_Gauss_Legendre(std::vector<double> function_values, std::vector
 double Integrate(std::function<double(double)> func, double a, double b, const std::string& method, int method_parameter)
 {
 	double sign = 1.0;
+	if(method != "Trapezoidal" && method != "Gauss-Legendre" && method != "Gauss-Kronrod" && method != "Tanh-Sinh" && method != "Gauss-Legendre_2" && method != "Adaptive-Simpson")
+	{
+		std::cerr << "Error in libphysica::Integrate(): Method " << method << " not recognized." << std::endl;
+		std::exit(EXIT_FAILURE);
+	}
 	if(a == b)
 		return 0.0;
 	else
